@@ -183,6 +183,72 @@ fn check_case<'a>(b: &'a AllBuilder<'a>, c: &Case, params: &[(Vec<(u32, u32)>, W
     None
 }
 
+/// smooth, disturb the builder with another kind of call on the same diagram, smooth again: the second
+/// smoothing must still be right (function, every path testing levels 0..k-1 once in order, exact count at
+/// full width). Disturbances: conditioning on every literal, quantifying every variable, conjoining with
+/// every positive literal, negation.
+fn check_disturbed<'a>(b: &'a AllBuilder<'a>, c: &Case, params: &[(Vec<(u32, u32)>, WmcParams<RealSemiring>)], evals: &mut u64) -> Option<(String, String)> {
+    let nv = c.n + c.extra;
+    let t = tt::extend(c.f, c.n, nv);
+    let p = build_bdd(b, c.f, c.n);
+    if bdd_tt(p, nv) != t {
+        return None;
+    }
+    let levels = levels_of(&c.order);
+    let mut dist: Vec<(String, usize, u8)> = Vec::new();
+    for v in 0..nv {
+        dist.push((format!("condition(f, x{}, true)", v), v, 0));
+        dist.push((format!("condition(f, x{}, false)", v), v, 1));
+        dist.push((format!("exists(f, x{})", v), v, 2));
+        dist.push((format!("and(f, x{})", v), v, 3));
+    }
+    dist.push(("negate(f)".to_string(), 0, 4));
+    for (name, v, kind) in dist.iter() {
+        let r = guarded(|| {
+            let first = b.smooth(p, c.k);
+            let lbl = VarLabel::new(*v as u64);
+            let _ = match kind {
+                0 => b.condition(p, lbl, true),
+                1 => b.condition(p, lbl, false),
+                2 => b.exists(p, lbl),
+                3 => b.and(p, b.var(lbl, true)),
+                _ => b.negate(p),
+            };
+            (first, b.smooth(p, c.k))
+        });
+        *evals += 2;
+        let (first, s) = match r {
+            Ok(x) => x,
+            Err(e) => return Some(("panic".into(), format!("smooth(f, {}); {}; smooth(f, {}) panicked: {}", c.k, name, c.k, e))),
+        };
+        let got = bdd_tt(s, nv);
+        if got != t {
+            return Some(("function-changed".into(), format!("smooth(f, {}); {}; smooth(f, {}): the second smoothing denotes {:#x} instead of {:#x}", c.k, name, c.k, got, t)));
+        }
+        if bdd_tt(first, nv) != t {
+            return Some(("function-changed".into(), format!("smooth(f, {}) denotes {:#x} instead of {:#x}", c.k, bdd_tt(first, nv), t)));
+        }
+        for path in bdd_paths(s) {
+            let lv: Vec<usize> = path.iter().map(|&x| levels[x]).collect();
+            if lv.len() < c.k || (0..c.k).any(|i| lv[i] != i) {
+                return Some(("path-misses-level".into(), format!("smooth(f, {}); {}; smooth(f, {}): a path of the second result tests levels {:?}; levels 0..{} must each be tested exactly once, in order", c.k, name, c.k, lv, c.k)));
+            }
+        }
+        if c.k == nv {
+            if let Some((w, prm)) = params.iter().nth(1).or(params.first()) {
+                let want = brute(t, nv, w);
+                if let Ok(x) = guarded(|| s.unsmoothed_wmc(prm)) {
+                    *evals += 1;
+                    if x.0 != want as f64 {
+                        return Some(("count-wrong".into(), format!("smooth(f, {}); {}; smooth(f, {}): the count of the second result under weights {:?} is {} but the sum over models is {}", c.k, name, c.k, w, x.0, want)));
+                    }
+                }
+            }
+        }
+    }
+    None
+}
+
 fn make_params(nv: usize, tier: Tier) -> Vec<(Vec<(u32, u32)>, WmcParams<RealSemiring>)> {
     weight_sets(nv, tier)
         .into_iter()
@@ -237,6 +303,7 @@ fn run_config_h(n: usize, extra: usize, order: &[usize], table_cap: usize, ctx: 
     let params = make_params(nv, ctx.tier);
     let total = 1u64 << (1u64 << n);
     let b = small_builder(&order[..nv - appended], table_cap);
+    let disturb = (order.iter().enumerate().map(|(i, v)| i * v).sum::<usize>() + appended) % 2 == 0 || ctx.tier == Tier::Thorough;
     if let Err(e) = guarded(|| if smooth_while_growing { grow_with_smoothing(&b, nv - appended, order, appended) } else { grow(&b, appended) }) {
         rep.violation("smooth:panic", format!("adding {} variables to a {}-variable manager panicked: {}", appended, nv - appended, e), json!({"kind": "smooth", "n": n, "extra_vars": extra, "order": order, "function": "0x0", "depth": 0, "appended": appended}));
         return rep;
@@ -253,6 +320,17 @@ fn run_config_h(n: usize, extra: usize, order: &[usize], table_cap: usize, ctx: 
             rep.evaluations += ev;
             if let Some((key, what)) = v {
                 rep.violation(format!("smooth:{}", key), format!("n={} order={:?} f={:#x}: {}", nv, order, f, what), case_json(&c));
+            }
+            // other kinds of builder calls between two smoothing calls (every second configuration of the
+            // small managers; a stride over the functions of the larger ones)
+            if disturb && (total <= 256 || (f / fstep as u64) % 16 == 3) && !crate::core::disabled("disturb") {
+                let mut ev = 0;
+                if let Some((key, what)) = check_disturbed(&b, &c, &params, &mut ev) {
+                    rep.violation(format!("smooth:{}", key), format!("n={} order={:?} f={:#x}: {}", nv, order, f, what), case_json(&c));
+                }
+                rep.transitions += 1;
+                rep.evaluations += ev;
+                rep.add_extra("smooth_disturb_smooth_cases", 1);
             }
         }
         // anti-vacuity: functions whose diagram skips a level that is not at the bottom
